@@ -601,6 +601,12 @@ func rowLess(ri, rj Row, c SortConfig) bool {
 		si, sj = ci.T.Format(time.RFC3339Nano), cj.T.Format(time.RFC3339Nano)
 	}
 	l := stringLess(si, sj, cfg.Desc)
+	if tl, ok := typedCompare(ci, cj); ok {
+		l = tl
+		if cfg.Desc {
+			l *= -1
+		}
+	}
 	if l < 0 {
 		return true
 	}
@@ -608,6 +614,37 @@ func rowLess(ri, rj Row, c SortConfig) bool {
 		return false
 	}
 	return rowLess(ri, rj, c[1:])
+}
+
+// typedCompare orders two int64 or two float64 literals numerically and two
+// time anchors chronologically. It returns false for every other pair of
+// cells, which are ordered by their text.
+func typedCompare(ci, cj *Cell) (int, bool) {
+	sign := func(less, greater bool) int {
+		if less {
+			return -1
+		}
+		if greater {
+			return 1
+		}
+		return 0
+	}
+	if ci.L != nil && cj.L != nil && ci.L.Type() == cj.L.Type() {
+		switch ci.L.Type() {
+		case literal.Int64:
+			vi, _ := ci.L.Int64()
+			vj, _ := cj.L.Int64()
+			return sign(vi < vj, vi > vj), true
+		case literal.Float64:
+			vi, _ := ci.L.Float64()
+			vj, _ := cj.L.Float64()
+			return sign(vi < vj, vi > vj), true
+		}
+	}
+	if ci.T != nil && cj.T != nil {
+		return sign(ci.T.Before(*cj.T), ci.T.After(*cj.T)), true
+	}
+	return 0, false
 }
 
 // Less returns true if the i row is less than j one.
